@@ -14,7 +14,7 @@ RULE = ('bounded-exhaustive: every training list of <= 2 (3 in thorough) passwor
         'the level from the real OmenScorer on the saved files and the level(s) at which the loaded guesser grammar generates the string (reference semantics, cross-checked against the real MarkovCracker output for levels <= 6) '
         'must agree or all say "cannot be generated"; omen_pws_per_level.txt must be the tally; non-trivial = (training, candidate) with a level != -1')
 ASSUMPTIONS = ['the guesser level is computed on the grammar dictionary returned by the real load_rules with the generator semantics that C10 establishes; for levels <= 6 it is also cross-checked against real MarkovCracker output',
-               'utf-8 rulesets (other encodings of the OMEN files: C07)']
+               'utf-8 rulesets, plus three small lists with non-ASCII letters as latin-1 / cp1251 / utf-16 rulesets (every code point in every encoding: C07)']
 NSHARDS = 32
 POOL = ['a', 'ab', 'aab', 'abab', 'ab1', '1ab1', 'bbbb', 'aaaaa', 'ab1ab1', 'b1', 'abba', 'a1a1a', 'a' * 21, 'ab' * 11, 'a b', 'ab ab', ' ab ']
 
@@ -64,6 +64,12 @@ def trainings(tier):
         for ng in (2, 3, 4):
             yield l, dict(ngram=ng, alphabet_size=10, coverage=0.5)
     yield SPREAD, dict(ngram=3, alphabet_size=100, coverage=0.5)
+    # rulesets in an encoding other than the platform's: every OMEN file is written and read in the ruleset's encoding
+    for l, enc in ((['caf\xe912', 'se\xf1or1', 'm\xfcller', 'cafe12', '\xe9\xe9', 'caf\xe912'], 'latin-1'),
+                   (['\u043f\u0430\u0440\u043e\u043b\u044c', '\u043f\u0430\u0440\u043e\u043b\u044c1', 'parol1', '\u043f\u0430'], 'cp1251'),
+                   (['caf\xe912', '\u043f\u0430\u0440\u043e\u043b\u044c', '\u4e2d\u56fd\u4e2d\u56fd', 'ab'], 'utf-16')):
+        for ng in (2, 3):
+            yield l, dict(ngram=ng, alphabet_size=100, coverage=0.5, encoding=enc)
     if tier == 'thorough':
         # every pair of strings over {a,b} of length 4..6 (dead ends, shared prefixes, cycles), alphabet large enough for both letters
         words = [''.join(t) for n in (4, 5, 6) for t in itertools.product('ab', repeat=n)]
@@ -102,7 +108,7 @@ def check_training(wd, lines, opts, acc, want_keyspace=False):
     if g is None:
         return [('load', 'guesser cannot load the OMEN files')], None
     try:
-        sc = O.load_scorer_omen(base, 'utf-8')
+        sc = O.load_scorer_omen(base, opts.get('encoding', 'utf-8'))
     except Exception as e:
         return [('load', 'scorer cannot load the OMEN files: %r' % (e,))], None
     gm = O.GuesserModel(g)
@@ -140,7 +146,7 @@ def check_training(wd, lines, opts, acc, want_keyspace=False):
             fails.append(('generator', 'string %r has level %d but MarkovCracker does not emit it there' % (s, gl[0])))
             break
     # per-level password counts
-    rows = P.read_list(os.path.join(base, 'Omen', 'omen_pws_per_level.txt'))
+    rows = P.read_list(os.path.join(base, 'Omen', 'omen_pws_per_level.txt'), opts.get('encoding', 'utf-8'))
     got = Counter({int(v): int(p) for v, p in rows})
     mine = Counter()
     for s, n in Counter(lines).items():
